@@ -15,6 +15,7 @@ def refOfJson : Json → Except String Ref
 
 def kindOfStr : String → Except String Kind
   | "initOk" => pure .initOk | "initBad" => pure .initBad | "request" => pure .request
+  | "requestChatty" => pure .request   -- a request whose handler emits notifications first: same envelope class
   | "notifInitialized" => pure .notifInitialized | "notifOther" => pure .notifOther
   | "response" => pure .response | "responseEmpty" => pure .responseEmpty | "invalid" => pure .invalid
   | s => throw s!"kind {s}"
